@@ -94,13 +94,23 @@ def _generic(mode):
     return mode
 
 
-def _lp_modes(dc_point, nyq=False):
+_LP_FORMS = {
+    # the transfer function of each design, cross-multiplied (U is the value of z**-1 at the generic point, R the code's pole radius)
+    "lowpass.pole": "NUM(result) * (1 - R * U) == (1 - R) * DEN(result)", "lowpass.pole_exp": "NUM(result) * (1 - R * U) == (1 - R) * DEN(result)",
+    "highpass.pole": "NUM(result) * (1 + R * U) == (1 - R) * DEN(result)", "highpass.pole_exp": "NUM(result) * (1 + R * U) == (1 - R) * DEN(result)",
+    "lowpass.z": "2 * NUM(result) * (1 + R * U) == (1 + R) * (1 + U) * DEN(result)", "lowpass.z_exp": "2 * NUM(result) * (1 + R * U) == (1 + R) * (1 + U) * DEN(result)",
+    "highpass.z": "2 * NUM(result) * (1 - R * U) == (1 + R) * (1 - U) * DEN(result)", "highpass.z_exp": "2 * NUM(result) * (1 - R * U) == (1 + R) * (1 - U) * DEN(result)",
+}
+
+
+def _lp_modes(dc_point, nyq=False, form=None):
     pt = "U == 1" if not nyq else "U == -1"
     return {
         "gain-at-%s" % ("Nyquist" if nyq else "DC"): Mode(params=dict(cutoff=Real), requires=["cutoff > 0", "cutoff < pi", pt],
                                                          ensures=[("S:unit-gain-at-%s" % ("Nyquist" if nyq else "DC"), "NUM(result) == DEN(result) and DEN(result) != 0")]),
         "generic-point": _generic(Mode(params=dict(cutoff=Real), requires=["cutoff > 0", "cutoff < pi"],
-                                       ensures=[("S:pole-strictly-inside-the-unit-circle", "R > -1 and R < 1")])),
+                                       ensures=[("S:pole-strictly-inside-the-unit-circle", "R > -1 and R < 1"),
+                                                ("S:the-filter-is-the-single-pole-section-with-that-pole(transfer-function,cross-multiplied)", form + " and DEN(result) != 0")])),
     }
 
 
@@ -108,7 +118,7 @@ _desc = "unit gain at %s and the single pole (at z = %sR) strictly inside the un
 designs = []
 for qual, nm, nyq, sign in (("lowpass#1", "lowpass.pole", False, ""), ("highpass#1", "highpass.pole", True, "-"), ("lowpass#2", "lowpass.z", False, "-"), ("highpass#2", "highpass.z", True, ""),
                             ("lowpass#3", "lowpass.pole_exp", False, ""), ("highpass#3", "highpass.pole_exp", True, "-"), ("lowpass#4", "lowpass.z_exp", False, "-"), ("highpass#4", "highpass.z_exp", True, "")):
-    modes = _lp_modes(None, nyq)
+    modes = _lp_modes(None, nyq, _LP_FORMS[nm])
     # the pole: the design is gain * (1 +- u) / (1 -+ R u) or (1-R)/(1 -+ R u): as a rational function in the generic u
     designs.append(_design(nm, "audiolazy/lazy_filters.py::" + qual, modes, [_desc % ("Nyquist" if nyq else "DC", sign)]))
 
